@@ -293,7 +293,14 @@ def copy_hand(tid, spec, rng, pol, max_after=60):
             who = 'B' if who == 'A' else 'A'
             st = inst[who]
             mirror = False
-        moves = walk.legal_moves(st, rng, pol, werr)
+        try:
+            moves = walk.legal_moves(st, rng, pol, werr)
+        except Exception as e:  # noqa: BLE001 - one of the engine's own queries raised while the driver was choosing a move
+            oth = inst['B' if who == 'A' else 'A']
+            ev = play.step(st, 'no_operate', NOARGS, werr, [{'op': 'no_operate', 'a': NOARGS, 'r': False, 'x': 'query raised ' + type(e).__name__, 'v': ''}])
+            ev.update(inst=who, mirror=False, osame=True, other=play.observe(oth, len(oth.operations)))
+            rec['steps'].append(ev)
+            return rec
         if not moves:
             break
         tot = sum(w for w, _, _ in moves)
